@@ -1,7 +1,7 @@
 """Seeded generators: signals, sift option sets, phases, label vectors."""
 import numpy as np
 
-FAMILIES = ['noise', 'walk', 'tones', 'amfm', 'int', 'const', 'ramp', 'periodic', 'palindrome', 'steps']
+FAMILIES = ['noise', 'walk', 'tones', 'amfm', 'int', 'const', 'ramp', 'periodic', 'palindrome', 'steps', 'spikes', 'transient']
 OSC_FAMILIES = ['noise', 'walk', 'tones', 'amfm', 'int', 'periodic', 'palindrome']
 
 
@@ -39,6 +39,22 @@ def signal(rng, kind, n):
         nseg = max(2, n // int(rng.integers(3, 12)))
         lens = rng.multinomial(n, np.ones(nseg) / nseg)
         return np.concatenate([np.full(L, v) for L, v in zip(lens, rng.integers(-4, 5, nseg).astype(float))])[:n] if lens.sum() >= n else np.zeros(n)
+    if kind == 'transient':
+        # a short burst at one end followed by a long extremum-free drift
+        x = rng.uniform(-.02, .02) * t + (rng.uniform(-1e-4, 1e-4) * t ** 2 if rng.random() < .5 else 0)
+        b = np.array([0, 1, .9, 1, 0, .6, .55, .7][:min(int(rng.integers(4, 9)), n)]) * float(rng.uniform(.5, 2))
+        if rng.random() < .5:
+            x[:len(b)] += b
+        else:
+            x[-len(b):] += b
+        return x
+    if kind == 'spikes':
+        # exactly flat apart from a few isolated impulses / short transients
+        x = np.full(n, float(rng.uniform(-1, 1)) if rng.random() < .5 else 0.0)
+        for _ in range(int(rng.integers(1, 6))):
+            i = int(rng.integers(1, n - 1))
+            x[i:i + int(rng.integers(1, 4))] += float(rng.uniform(.5, 2)) * float(pick(rng, [-1, 1]))
+        return x
     raise ValueError(kind)
 
 
